@@ -204,7 +204,7 @@ def run_tlc(ctx, module, cfg=None, workers=None, env=None, timeout=600, extra=()
     m = re.search(r"Invariant (\S+) is violated", res.out)
     if m:
         res.invariant_violated = m.group(1)
-    if "Temporal properties were violated" in res.out or re.search(r"Action property \S+ is violated", res.out):
+    if "Temporal properties were violated" in res.out or re.search(r"(Action|Temporal) property \S+ (is|was) violated", res.out):
         res.property_violated = True
     if "Deadlock reached" in res.out:
         res.deadlock = True
